@@ -10,20 +10,24 @@ import EdbVerif.Model.CardSpec
 namespace EdbVerif.MiniQL
 open EdbVerif.Gen.Card EdbVerif.Card
 
-/-- value `v` has static type `t` in database `db` -/
-def HasTy (db : DB) : Ty → Val → Prop
-  | .obj t, v => ∃ id, v = .obj id ∧ (id, t) ∈ db.objs
+/-- value `v` has static type `ty` in database `db`: an object whose exact type is a component of `ty`
+    or a descendant of one -/
+def HasTy (sch : Schema) (db : DB) : Ty → Val → Prop
+  | .obj ts, v => ∃ id ty t, v = .obj id ∧ (id, ty) ∈ db.objs ∧ t ∈ ts ∧ ty ∈ sch.lineage t
   | .other, _ => True
 
 /-- the database satisfies the schema's constraints -/
 structure Conforms (sch : Schema) (db : DB) : Prop where
   /-- object ids are unique -/
   ids : (db.objs.map (·.1)).Nodup
-  /-- required / single are respected for every object of the source type -/
-  card : ∀ p d id, sch.ptr? p = some d → (id, d.srcTy) ∈ db.objs → γ d.card (db.get p id).length
+  /-- the descendant relation is transitive -/
+  trans : ∀ t d e, d ∈ sch.lineage t → e ∈ sch.lineage d → e ∈ sch.lineage t
+  /-- required / single are respected for every object of the source type or of a subtype -/
+  card : ∀ p d id ty, sch.ptr? p = some d → (id, ty) ∈ db.objs → ty ∈ sch.lineage d.srcTy →
+    γ d.card (db.get p id).length
   /-- links point to existing objects of the target type -/
-  tgt : ∀ p d t id, sch.ptr? p = some d → d.link = some t → (id, d.srcTy) ∈ db.objs →
-    ∀ v ∈ db.get p id, HasTy db (.obj t) v
+  tgt : ∀ p d t id ty, sch.ptr? p = some d → d.link = some t → (id, ty) ∈ db.objs →
+    ty ∈ sch.lineage d.srcTy → ∀ v ∈ db.get p id, HasTy sch db (.obj [t]) v
   /-- a link's targets form a set -/
   linkSet : ∀ p d id, sch.ptr? p = some d → d.link.isSome = true → (db.get p id).Nodup
   /-- exclusive: no value occurs twice, neither within one object nor across objects -/
@@ -36,8 +40,8 @@ structure SigOK (sch : Schema) : Prop where
   ret : ∀ f d, sch.fn? f = some d → ∀ args, γ (typemodToCard d.ret) (d.impl args).length
 
 /-- the environment gives every variable a value of its static type -/
-def EnvOK (db : DB) (Γ : VCtx) (env : List Val) : Prop :=
-  All2 (fun (v : VarInfo) x => HasTy db v.ty x) Γ env
+def EnvOK (sch : Schema) (db : DB) (Γ : VCtx) (env : List Val) : Prop :=
+  All2 (fun (v : VarInfo) x => HasTy sch db v.ty x) Γ env
 
 mutual
 /-- the exclusive-filter rule (`_analyse_filter_clause` ⇒ AT_MOST_ONE) fires nowhere in the query -/
@@ -82,7 +86,14 @@ def safeHere (sch : Schema) (Γ : VCtx) (dist : Option Nat) : Q → Bool
   | .union a b =>
     let ma := inferMult sch Γ dist a
     let mb := inferMult sch Γ dist b
+    let ta := tyOf sch (Γ.map (·.ty)) a
+    let tb := tyOf sch (Γ.map (·.ty)) b
+    -- `types_disjoint` is relied upon only between two plain types (a union type has no descendants:
+    -- its lineage says nothing about its members)
     !(ma.info.own.isUnique && mb.info.own.isUnique && ma.info.disjoint_union && mb.info.disjoint_union)
+      && (!typesDisjoint sch ta tb || (match ta, tb with
+          | .obj [_], .obj [_] => true
+          | _, _ => false))
   | .call f args =>
     match sch.fn? f with
     | some d => (stdCallCard d.params d.ret (inferCardList sch Γ args)).isSingle
